@@ -51,6 +51,7 @@ type portsState struct {
 	squats   map[string]interface{ Close() error }
 	grabNext map[string]bool        // proxy name -> grab its port at the gate
 	parked   map[string]chan struct{} // udp forwarder exits parked, by proxy name
+	grabbed  int                      // port taken by the last grab (0 = none)
 	mu       sync.Mutex
 }
 
@@ -154,6 +155,7 @@ func portsReset(maxPorts int) {
 				for p, n := range used {
 					if n == keys[0] {
 						st.squat(proto, p)
+						st.grabbed = p
 					}
 				}
 			}
@@ -213,6 +215,7 @@ func (st *portsState) ctl(sid int) *server.Control {
 	if err != nil {
 		panic(err)
 	}
+	c.Start()
 	st.ctls[sid] = c
 	return c
 }
@@ -309,13 +312,18 @@ func portsExec(tok []string) string {
 			st.grabNext[name] = true
 			st.mu.Unlock()
 		}
+		st.grabbed = 0
 		m := &msg.NewProxy{ProxyName: name, ProxyType: proto, RemotePort: st.parseReq(tok[4])}
 		addr, err := st.ctl(sid).RegisterProxy(m)
 		st.mu.Lock()
 		delete(st.grabNext, name)
 		st.mu.Unlock()
 		if err != nil {
-			return "err:" + classifyRegErr(err)
+			c := classifyRegErr(err)
+			if c == "listen" && st.grabbed != 0 {
+				c += ":" + strconv.Itoa(st.grabbed-st.base) // the port that had been acquired
+			}
+			return "err:" + c
 		}
 		p, _ := strconv.Atoi(strings.TrimPrefix(addr, ":"))
 		return "ok:" + strconv.Itoa(p-st.base)
